@@ -30,7 +30,7 @@ func c06String(r *Rng) string {
 	}
 }
 
-var c06KwNames = []string{"a", "k-1", "", "1", "é", "a:b", "-", "x?", "<="}
+var c06KwNames = []string{"ʞa", "ʞ", "aʞ", "ʞʞk", "a", "k-1", "", "1", "é", "a:b", "-", "x?", "<="}
 
 var c06Symbols = []string{"a", "x-1", "+", "<=", "a/b", "*x*", "é1", "nil?", "_", "true?", "->", "$", "a$b", "-", "-a", "--", "!"}
 
